@@ -59,7 +59,18 @@ pub fn exec(req: &str) -> String {
 
     let root = tmpdir();
     let se = Arc::new(StorageEngine::new(cfg(root.path())).unwrap());
+    let before: Vec<u64> = if inc { threads_named("incremental-wor") } else { vec![] };
     if inc { if se.with_kg_mut(KG, |kg| kg.enable_incremental().map_err(|e| e.to_string())).is_err() { return "enable-incremental-failed".into(); } }
+    // kernel id of this engine's DD worker thread (the one that appeared with enable_incremental)
+    let mut worker_tid: Option<u64> = None;
+    if inc {
+        for _ in 0..200 {
+            let now = threads_named("incremental-wor");
+            if let Some(t) = now.iter().find(|t| !before.contains(t)) { worker_tid = Some(*t); break; }
+            std::thread::sleep(std::time::Duration::from_millis(5));
+        }
+        if worker_tid.is_none() { return "incremental-worker-thread-not-found".into(); }
+    }
 
     let sc = Sched::new(progs.len(), &ACTIVE, &[]);
     let res: Arc<Mutex<Vec<Vec<(usize, String)>>>> = Arc::new(Mutex::new(vec![vec![]; progs.len()]));
@@ -90,17 +101,45 @@ pub fn exec(req: &str) -> String {
             Err(_) => "err".into(),
         }
     };
+    // With the incremental engine on, a shadow write below the input-session time kills the DD
+    // worker *inside* the write call; the call then either returns an error or (race inside the real
+    // code: the response sender of `notify_base_update` stays buffered in the half-closed channel)
+    // blocks forever while holding the KG write lock. Both outcomes are canonicalised as
+    // `fin=dead@<step>`; results/observations are reported up to the boundary before that step.
+    if let Some(wt) = worker_tid { sc.set_abort(Box::new(move || !thread_exists(wt))); }
+    let is_write = |t: usize, k: usize| matches!(progs.get(t).and_then(|p| p.get(k)), Some(Op::Insert(..)) | Some(Op::Delete(..)));
     let mut obs = vec![observe(&se)];
-    for &t in sched.iter() {
-        match sc.step(t) { StepResult::Arrived(_) => {}, StepResult::Finished => sc.bump(), StepResult::Blocked => { sc.release_all(); for h in handles { let _ = h.join(); } Sched::uninstall(); return "blocked".into(); } }
+    let mut dead: Option<usize> = None;
+    let mut run = |t: usize, k: usize, obs: &mut Vec<String>, dead: &mut Option<usize>| -> bool {
+        let before = res.lock().unwrap().get(t).map(|l| l.len()).unwrap_or(0);
+        match sc.step(t) {
+            StepResult::Arrived(_) => {
+                let r = res.lock().unwrap();
+                if inc && t < r.len() && r[t].len() > before && r[t][before].1 == "err" && is_write(t, before) { *dead = Some(k); return false; }
+            }
+            StepResult::Finished => sc.bump(),
+            StepResult::Blocked => { *dead = Some(k); return false; }
+        }
         obs.push(observe(&se));
-    }
-    loop {
+        true
+    };
+    let mut k = 0usize;
+    for &t in sched.iter() { if !run(t, k, &mut obs, &mut dead) { break; } k += 1; }
+    while dead.is_none() {
         let t = match sc.unfinished().first().copied() { Some(t) => t, None => break };
-        match sc.step(t) { StepResult::Arrived(_) => {}, _ => break }
-        obs.push(observe(&se));
+        if !run(t, k, &mut obs, &mut dead) { break; }
+        k += 1;
     }
     sc.release_all();
+    if let Some(kd) = dead {
+        // never join: a worker may be stuck for good; leak the engine with it
+        Sched::uninstall();
+        std::mem::forget(handles);
+        let res = res.lock().unwrap();
+        let res_s = res.iter().map(|l| { let v: Vec<String> = l.iter().filter(|(k, _)| *k < kd).map(|(k, o)| format!("{k}:{o}")).collect(); if v.is_empty() { "-".to_string() } else { v.join(",") } }).collect::<Vec<_>>().join("/");
+        std::mem::forget(se.clone());
+        return format!("res={} obs={} fin=dead@{}", res_s, obs.join(" "), kd);
+    }
     for h in handles { let _ = h.join(); }
     Sched::uninstall();
     let fin = if inc { (0..nr).map(|r| readc(&se, r)).collect::<Vec<_>>().join("|") } else { "-".into() };
